@@ -9,6 +9,8 @@ mod expression;
 mod parsing;
 #[cfg(any(test, feature = "internal-testing"))]
 mod proptest_helpers;
+#[cfg(feature = "verif-hooks")]
+pub mod verif_hooks;
 
 pub use expression::{
     BinaryQuery, CompiledExpr, EvalContext, Filterset, FiltersetKind, FiltersetLeaf, NameMatcher,
